@@ -1,6 +1,7 @@
 package main
 
 import (
+	"go/constant"
 	"fmt"
 	"go/token"
 	"strings"
@@ -31,6 +32,7 @@ func init() {
 }
 
 func runC33(c *Ctx) {
+	runC33Extra(c)
 	const pkg = "network"
 	op := c.mustFn(pkg, "PeerToPeer", "onPacket")
 	if op != nil {
@@ -205,4 +207,233 @@ func c33Flags(c *Ctx, op *ssa.Function) (oneHop, bcast ssa.Value) {
 func destPeer(c *Ctx) int64 {
 	v, _ := c.constVal("network", "p2pDestPeer")
 	return v
+}
+
+// runC33Extra: the dedup ring is scanned over all buckets (wrap to the last
+// bucket, stop early only at an unallocated one); a role flag is granted or
+// stripped by the allowed set of that very role; an update of an allowed set
+// both grants and revokes; and a resolved role that differs from the stored
+// one is stored (downgrades included).
+func runC33Extra(c *Ctx) {
+	const pkg = "network"
+	// (1) ring scan
+	if f := c.mustFn(pkg, "PacketPool", "_contains"); f != nil {
+		var cur *ssa.Phi
+		for _, b := range f.Blocks {
+			for _, in := range b.Instrs {
+				if p, ok := in.(*ssa.Phi); ok && p.Comment == "cur" && loopHeaderOf(b) == b {
+					cur = p
+				}
+			}
+		}
+		okWrap := false
+		desc := "scan cursor not recognised"
+		if cur != nil {
+			for i, e := range cur.Edges {
+				if !cur.Block().Dominates(cur.Block().Preds[i]) {
+					continue
+				}
+				bo, ok := e.(*ssa.BinOp)
+				if !ok || bo.Op != token.SUB {
+					desc = "cursor advances by " + render(e)
+					continue
+				}
+				if k, ok := constInt(bo.Y); !ok || k != 1 {
+					continue
+				}
+				var forms []string
+				good := 0
+				if merge, ok := bo.X.(*ssa.Phi); ok {
+					for k, ev := range merge.Edges {
+						gs := guardsOnEdge(merge.Block().Preds[k], merge.Block())
+						r := render(ev)
+						forms = append(forms, r)
+						_, atZero := holds(gs, wGE("cursor < 1", 0, t(-1, `^phi\(`)))
+						_, above := holds(gs, wGE("cursor ≥ 1", -1, t(1, `^phi\(`)))
+						switch {
+						case ev == ssa.Value(cur) && above:
+							good++
+						case r == "$r.numOfBucket" && atZero:
+							good++
+						}
+					}
+				} else {
+					forms = append(forms, render(bo.X))
+				}
+				desc = strings.Join(forms, " | ") + " − 1"
+				okWrap = good == 2 && len(forms) == 2
+			}
+		}
+		c.check(okWrap, "C33.ring-scan", "the duplicate scan steps back one bucket and wraps from bucket 0 to the last bucket", f.Pos(), desc, "the scan cursor's step is "+desc+": after the ring wrapped some bucket is never consulted and a duplicate stored there is delivered again")
+		n := 0
+		for _, e := range exitAlts(f) {
+			if !isConstBool(e.Results[0], false) {
+				continue
+			}
+			if h := loopHeaderOf(e.Ret.Block()); h == nil {
+				continue // after the loop: every bucket was consulted
+			}
+			n++
+			c.requireGuard("C33.ring-scan", "the scan gives up early only at an unallocated bucket", e.pos(), e.Guards, wSame("bucket == nil", `^\$r\.buckets\[`, `^nil$`))
+		}
+		if n == 0 {
+			c.okTrivial("C33.ring-scan", "no early negative exit", f.Pos(), "scan runs to the end")
+		}
+	}
+	// (2) role flag ↔ allowed set of the same role
+	if f := c.mustFn(pkg, "PeerToPeer", "resolveRole"); f != nil {
+		root, _ := c.constVal(pkg, "p2pRoleRoot")
+		seed, _ := c.constVal(pkg, "p2pRoleSeed")
+		n := 0
+		for _, cs := range c.calls(f, byMethod("SetFlag", "UnSetFlag")) {
+			_, a := callArgs(cs.Common())
+			k, ok := constInt(a[len(a)-1])
+			if !ok {
+				continue
+			}
+			want := map[int64]string{root: "allowedRoots", seed: "allowedSeeds"}[k]
+			other := map[int64]string{root: "allowedSeeds", seed: "allowedRoots"}[k]
+			n++
+			bad := ""
+			found := false
+			for _, alt := range [][]Guard{guardsAt(cs.Instr)} {
+				for _, g := range alt {
+					r := render(g.Cond)
+					if !strings.Contains(r, ".Contains($1)") {
+						continue
+					}
+					if strings.Contains(r, "."+want+".Contains($1)") {
+						found = true
+					}
+					if strings.Contains(r, "."+other+".Contains($1)") {
+						bad = r
+					}
+				}
+			}
+			c.check(found && bad == "", "C33.role-by-own-set", fmt.Sprintf("resolveRole: %s(%d) is decided by membership in %s", methodName(cs.Common()), k, want), cs.Pos(), want+".Contains(id)", fmt.Sprintf("the role flag %d is granted/stripped by %s (membership in %s decisive: %v): a peer authorised for the other role keeps a role it is not authorised for, and its broadcasts are accepted", k, bad, want, found))
+		}
+		if n < 6 {
+			c.undecided("C33.role-by-own-set", "resolveRole flag updates", f.Pos(), fmt.Sprintf("expected 6, found %d", n))
+		}
+	}
+	// (3) allowed-set update: grant and revoke
+	if f := c.mustFn(pkg, "PeerToPeer", "onAllowedPeerIDSetUpdate"); f != nil {
+		nPred := 0
+		for _, an := range f.AnonFuncs {
+			if an.Signature.Results().Len() != 1 || len(c.calls(an, byMethod("HasRole"))) == 0 {
+				continue
+			}
+			nPred++
+			eval := func(v ssa.Value, h, s bool) (bool, bool) { return false, false }
+			eval = func(v ssa.Value, h, s bool) (bool, bool) {
+				switch x := v.(type) {
+				case *ssa.Const:
+					if x.Value != nil && x.Value.Kind() == constant.Bool {
+						return constant.BoolVal(x.Value), true
+					}
+				case *ssa.Call:
+					switch methodName(x.Common()) {
+					case "HasRole":
+						return h, true
+					case "Contains":
+						return s, true
+					}
+				case *ssa.UnOp:
+					if x.Op == token.NOT {
+						b, ok := eval(x.X, h, s)
+						return !b, ok
+					}
+				case *ssa.BinOp:
+					a, ok1 := eval(x.X, h, s)
+					b, ok2 := eval(x.Y, h, s)
+					if ok1 && ok2 {
+						switch x.Op {
+						case token.NEQ, token.XOR:
+							return a != b, true
+						case token.EQL:
+							return a == b, true
+						case token.AND:
+							return a && b, true
+						case token.OR:
+							return a || b, true
+						}
+					}
+				}
+				return false, false
+			}
+			table := ""
+			okT := true
+			for _, asg := range [][2]bool{{true, false}, {false, true}, {true, true}, {false, false}} {
+				res, decided := false, false
+				for _, e := range exitAlts(an) {
+					consistent := true
+					for _, g := range e.Guards {
+						b, ok := eval(g.Cond, asg[0], asg[1])
+						if !ok || b != g.Pol {
+							consistent = false
+						}
+					}
+					if !consistent {
+						continue
+					}
+					if b, ok := eval(e.Results[0], asg[0], asg[1]); ok {
+						res, decided = b, true
+					}
+				}
+				want := asg[0] != asg[1]
+				table += fmt.Sprintf("(has=%v,allowed=%v)→%v ", asg[0], asg[1], res)
+				if !decided || res != want {
+					okT = false
+				}
+			}
+			c.check(okT, "C33.set-update", "an allowed-set update selects the peers that must gain the role and those that must lose it", an.Pos(), "HasRole(r) != allowed.Contains(id)", "the selection is "+table+": a peer removed from the allowed set keeps the role (or one added never gets it), so broadcasts of a revoked validator are still accepted")
+		}
+		if nPred != 1 {
+			c.undecided("C33.set-update", "onAllowedPeerIDSetUpdate predicate", f.Pos(), fmt.Sprintf("expected one selecting closure, found %d", nPred))
+		}
+		for _, an := range f.AnonFuncs {
+			for _, cs := range c.calls(an, byMethod("removeRole")) {
+				c.requireAt("C33.set-update", "the role is removed from a peer that has it", cs.Instr, wTrue("HasRole(r)", `\.HasRole\(`))
+			}
+			for _, cs := range c.calls(an, byMethod("addRole")) {
+				c.requireAt("C33.set-update", "the role is added to a peer that lacks it", cs.Instr, wFalse("HasRole(r)", `\.HasRole\(`))
+			}
+		}
+	}
+	// (4) a resolved role that differs is stored
+	nUpd := 0
+	for _, f := range c.pkgFuncs(pkg) {
+		rs := c.calls(f, byCallee("PeerToPeer).resolveRole"))
+		if len(rs) != 1 || f.Name() == "resolveRole" {
+			continue
+		}
+		sets := c.calls(f, func(cc *ssa.CallCommon) bool {
+			_, a := callArgs(cc)
+			return methodName(cc) == "setRole" && len(a) == 1 && a[0] == rs[0].Instr.Value()
+		})
+		if len(sets) == 0 {
+			continue
+		}
+		nUpd++
+		for _, st := range sets {
+			alts := [][]Guard{guardsAt(st.Instr)}
+			okG := true
+			why := ""
+			for _, alt := range alts {
+				for _, g := range alt {
+					r := render(g.Cond)
+					if strings.Contains(r, "Role(") && !(strings.Contains(r, ".EqualsRole(") && !g.Pol) {
+						okG = false
+						why = g.String()
+					}
+				}
+			}
+			c.check(okG, "C33.role-update", fnName(f)+" stores the resolved role whenever it differs from the stored one", st.Pos(), "skipped only if EqualsRole(resolved)", "the update is conditioned on "+why+": a subset test never applies a downgrade, so a peer keeps a role it no longer resolves to")
+			_, skip := pathAvoidingEdges(f, rs[0].Instr, isReturn, func(in ssa.Instruction) bool { return in == ssa.Instruction(st.Instr) }, wTrue("role unchanged", `\.EqualsRole\(`))
+			c.check(!skip, "C33.role-update", fnName(f)+" cannot finish without storing a changed role", st.Pos(), "no bypass", "a path from resolveRole to the end skips the store although the role differs")
+		}
+	}
+	if nUpd < 3 {
+		c.undecided("C33.role-update", "resolveRole→setRole sites", token.NoPos, fmt.Sprintf("expected 3 (setRole, handleQuery, handleQueryResult), found %d", nUpd))
+	}
 }
